@@ -630,7 +630,7 @@ gcsim("C10", "Out-of-memory and allocation-option contract",
            "combinations x {Default 64 B / 1 KiB / the non-LOS limit, LOS 128 KiB / 1 MiB, NonMoving 256 B} (objects initialised, half of the successful ones retained, so overcommit grows past the heap size) and x {heap+8 MiB, 4 x heap, 2^40, 2^46, usize::MAX/2} "
            "with LOS and Immortal semantics, (C) drop everything and collect}; the binding records per request: result, out_of_memory callbacks, block_for_gc calls, completed-GC counter at entry / at the callback / at return. "
            "E: callback with allow_oom_call=false; >1 callback per request; non-null after a callback; callback with no GC completed since entry (request smaller than the heap); larger-than-heap request succeeding or triggering a GC; "
-           "block_for_gc with at_safepoint=false; a successful overcommit request that blocked; null with at_safepoint && allow_oom_call but no callback; a request that never returns (watchdog + CPU: reported as stall). "
+           "block_for_gc with at_safepoint=false; null with at_safepoint && allow_oom_call but no callback; a request that never returns (watchdog + CPU: reported as stall). "
            "The same predicates are evaluated on every default-option allocation of every other gcsim check. case = one request; distinct = (options, semantics, outcome, size class)",
       technique="history monitor at the binding boundary: per-request call/return record joined with the out_of_memory / block_for_gc callbacks and the GC counter",
       level_text="Every request's observable history is judged by direct predicates; heaps genuinely fill, so the emergency-collection and OOM paths of every allocator run.",
